@@ -183,7 +183,13 @@ def getstate_complete(ctx, rule):
     gs = ctx.repo.method(P + "Parameterized", "__getstate__")
     dflt = Obj("class_default_of_c")
     own = Obj("own_value_of_x")
-    priv = Obj("instance_private", values={"c": dflt, "x": own, "name": "P00001"}, params={}, __kind__="_InstancePrivate")
+    # a per-instance Parameter object that differs from the class-level one ONLY in its default (the class default was
+    # changed after the copy was made, or `obj.param.x.default` was edited): values(onlychanged=True) and repr read it
+    ptype = Obj("NumberType", _all_slots_=["name", "default", "bounds", "owner", "watchers"])
+    bounds = (0, 1)
+    class_px = Obj("P_x", name="x", default=Obj("class_default_of_x"), bounds=bounds, owner=None, watchers={}, __type__=ptype)
+    inst_px = Obj("per_instance_Parameter_x", name="x", default=Obj("default_of_the_instance_copy"), bounds=bounds, owner=None, watchers={}, __type__=ptype)
+    priv = Obj("instance_private", values={"c": dflt, "x": own, "name": "P00001"}, params={"x": inst_px}, __kind__="_InstancePrivate")
     cls = Obj("Cls", param=Obj("class_namespace"))
     me = Obj("instance", _param__private=priv, plain_attribute=Obj("attr"))
     me.attrs["__dict__"] = {"_param__private": priv, "plain_attribute": me.attrs["plain_attribute"]}
@@ -197,12 +203,18 @@ def getstate_complete(ctx, rule):
         if fn == "type" and args and args[0] is me:
             return cls
         if fn.endswith(".param.objects"):
-            return {"c": Obj("P_c", default=dflt), "x": Obj("P_x", default=Obj("class_default_of_x")), "name": Obj("P_name", default="P")}
+            return {"c": Obj("P_c", default=dflt), "x": class_px, "name": Obj("P_name", default="P")}
+        if fn == "type" and args and isinstance(args[0], Obj) and "__type__" in args[0].attrs:
+            return args[0].attrs["__type__"]
+        if fn == "getattr" and len(args) == 2 and isinstance(args[0], Obj) and isinstance(args[1], str) and args[1] in args[0].attrs:
+            return args[0].attrs[args[1]]
+        if fn == "Comparator.is_equal" and len(args) == 2:
+            return args[0] is args[1] or (isinstance(args[0], tuple) and args[0] == args[1])
         if fn in ("copy.copy", "copy"):
             a = args[0]
             return Obj("copy_of_" + a.name, **dict(a.attrs)) if isinstance(a, Obj) else (dict(a) if isinstance(a, dict) else a)
         return NotImplemented
-    it = Interp(ctx.hier, dyn=P + "Parameterized", inline=lambda m: False, call_hook=hook, globals={"_InstancePrivate": "<_InstancePrivate>"})
+    it = Interp(ctx.hier, dyn=P + "Parameterized", inline=lambda m: False, call_hook=hook, globals={"_InstancePrivate": "<_InstancePrivate>"}, inline_module_functions=True)
     try:
         outs = it.run_all(gs, {gs.params[0]: me})
     except Unsupported as e:
@@ -220,6 +232,11 @@ def getstate_complete(ctx, rule):
                  input="c = copy.deepcopy(p); P.const = other -> c.const is other")
     elif st.get("plain_attribute") is not me.attrs["plain_attribute"]:
         ctx.fail(rule, gs, gs.node, "an ordinary attribute of the instance is missing from the saved state", key=gs.qualname + "::attribute-missing")
+    elif not isinstance(p2.attrs.get("params"), dict) or p2.attrs["params"].get("x") is not inst_px:
+        ctx.fail(rule, gs, gs.node, "the state saved for an instance that owns a per-instance Parameter object (one that differs from the class-level Parameter in its `default` only) holds the "
+                                    "per-instance Parameters %s: the copy re-derives the Parameter from the class, so its per-instance Parameter attributes (the default that repr and "
+                                    "values(onlychanged=True) read) are not the original's" % (sorted(p2.attrs["params"]) if isinstance(p2.attrs.get("params"), dict) else p2.attrs.get("params")),
+                 key=gs.qualname + "::parameter-table-incomplete", input="p.param.x; P.x = 5; c = copy.deepcopy(p) -> c.param.x.default != p.param.x.default")
     else:
         ctx.ok(rule, gs, gs.node, "the saved state holds every ordinary attribute and the complete value store (entries equal to the class default included)")
 
